@@ -222,6 +222,14 @@ def mmOperandOK (isMax : Bool) (a : Expr) : Bool :=
   | some args => args.all (itemOK isMax)
   | none => itemOK isMax a
 
+/-- a canonical operand of max (min): `mmOperandOK`, and `max({a}) = a` (a canonical Max node, a number,
+or any other non-Max expression) -/
+def mmCanonOperand (isMax : Bool) (a : Expr) : Bool :=
+  mmOperandOK isMax a &&
+  (match maxMinE isMax [a] with
+   | .ok r => eqE r a
+   | .error _ => false)
+
 /-! ### wire order for Max / Min arguments (hash order in the library: sorted by dump on the wire) -/
 
 def sortByKey (l : List Expr) : List Expr := l.foldl setInsert []
